@@ -488,6 +488,13 @@ func runScenario(d *scripted, dAddr string, cfg *pb.Config, fail func(clause, si
 	}
 	// 5. kill + erase on C (C may already have stopped by itself when it applied its own removal)
 	set(C, &pb.NodeHostRequest{Change: &pb.Request{Type: pb.Request_KILL, ShardId: sid, Members: []uint64{3}}, RaftAddress: C.Addr})
+	// (fleet model, `Loop.settle`: a replica that applies its own removal stops; a removed replica may also never learn
+	// of it and stay as a stray, which is what the kill request is for)
+	if wait(func() bool { return info(C) == nil }) {
+		run.Count("c18:removed_replica_stopped_by_itself")
+	} else {
+		run.Count("c18:removed_replica_stayed_as_stray")
+	}
 	stillRunning := info(C) != nil
 	round(C, true)
 	step("kill")
